@@ -100,7 +100,7 @@ def replay (j : Json) : R Verdict := do
     if starts.length != n then
       let p := if n == 0 then "C16" else "C03"
       pf := (p, s!"{starts.length} evaluations were started, expected {n} ({family})") :: pf
-      if family == "cli-invalid" && (fieldD exp "which").getNat?.toOption.getD 99 ∈ [4, 5, 6, 9] then
+      if family == "cli-invalid" && (fieldD exp "which").getNat?.toOption.getD 99 ∈ [4, 5, 6, 9, 10] then
         pf := ("C11", "an evaluation was started although the initial guess is invalid") :: pf
   | none => pure ()
   match optVal opts "-n" with
@@ -252,6 +252,14 @@ def replay (j : Json) : R Verdict := do
       pf := ("C15", s!"cambrian panicked in the twin run with verbose flipped: {((fieldD to "stderrTail").getStr?.toOption.getD "").takeEnd 200}") :: pf
     if (fieldD to "exitCode").compress != (fieldD obs "exitCode").compress || (fieldD to "stdoutLines").compress != (fieldD obs "stdoutLines").compress then
       pf := ("C15", s!"verbose changes the outcome: exit {(fieldD obs "exitCode").compress} vs {(fieldD to "exitCode").compress}") :: pf
+    -- the same parameter sets with the same seeds, in the same order; the same line on stdout
+    if (fieldD to "argvJson").compress != (fieldD der "argvJson").compress then
+      let a := ((fieldD der "argvJson").getArr?.toOption.getD #[]).toList
+      let b := ((fieldD to "argvJson").getArr?.toOption.getD #[]).toList
+      let k := ((a.zip b).takeWhile (fun (x, y) => x.compress == y.compress)).length
+      pf := ("C15", s!"verbose changes the run: evaluation {k} is {(a[k]?.map (·.compress)).getD "absent"} without / with --verbose flipped {(b[k]?.map (·.compress)).getD "absent"}") :: pf
+    else if (fieldD to "stdoutLines").compress != (fieldD obs "stdoutLines").compress then
+      pf := ("C15", s!"verbose changes what is printed on stdout: {(fieldD obs "stdoutLines").compress} vs {(fieldD to "stdoutLines").compress}") :: pf
     -- the files of the output directory: the same names, and the diagnostic dump of a failing child (argument, stdout,
     -- stderr) and the best-seen file byte for byte (reports carry timings and are not compared)
     if outMode == 1 then
